@@ -70,6 +70,38 @@ def r15_1(ctx):
                                 others |= set(explore(f, tg, {place_key(rvv["place"]): v}, removed_edges=back).keys())
                         if bb in reg - others:
                             ok, why = True, "ExitStatus::Skipped arm"
+            # or: in the Some arm of `outputs.iter().position(|o| o.exit_code == Code(skip code))` / find / any
+            if not ok:
+                from .c16 import _upvar_origin
+                for sb, st in switches(f):
+                    ve, rvv = variant_edges(f, sb)
+                    if ve is None or set(ve) != {"Some", "None"}:
+                        continue
+                    src = peel(o.operand({"copy": rvv["place"]}))
+                    if not (src.kind == "call" and method_name(src.a) in ("Iterator::position", "Iterator::find") and len(src.kids) == 2):
+                        continue
+                    reg = set(f.reachable(ve["Some"])) - set(f.reachable(ve["None"]))
+                    if bb not in reg:
+                        continue
+                    cn = peel(src.kids[1])
+                    if cn.kind == "agg" and isinstance(cn.a, tuple) and str(cn.a[0]).startswith("closure "):
+                        cb = prog.body_by_def(cn.a[0][len("closure "):], f.crate)
+                        if cb is not None:
+                            r = peel(Origins(cb).local(0))
+                            if r.kind == "call" and method_name(r.a) == "PartialEq::eq":
+                                shown = []
+                                for side in r.kids:
+                                    sd = peel(side)
+                                    txt = sd.show()
+                                    for n in sd.walk():
+                                        if n.kind == "field" and str(n.a).isdigit() and n.kids and peel(n.kids[0]).kind == "arg" and peel(n.kids[0]).a == 1:
+                                            up = _upvar_origin(prog, cb, int(n.a))
+                                            if up is not None:
+                                                txt += " " + up.show()
+                                    shown.append(txt)
+                                joined = " ".join(shown)
+                                if "exit_code" in joined and "get_skip_document_code" in joined and "ExitStatus::Code" in joined:
+                                    ok, why = True, "position(|o| o.exit_code == Code(skip_document_code)) is Some"
             ctx.check(ok, "skip-guard:%s#%d" % (f.impl_self.split("::")[-1], k), stmt_loc(f, bb, si),
                       "ExecutionError::Skipped only when the exit code equals the configured skip code (%s)" % why,
                       "ExecutionError::Skipped is constructed without a dominating `exit code == skip_document_code` guard: a document is skipped "
